@@ -146,7 +146,7 @@ def intval(e, FA, resolve, gate):
         t = U(e)
         if t.endswith('.padded_header_entry_length_bytes'):
             return FA.reader_stride[gate] if gate is not None and getattr(FA, 'reader_stride', None) else None
-        if t.endswith('.header_entry_length_bytes'):
+        if t.endswith('.header_entry_length_bytes') or t.endswith('.nbytes'):
             return FA.L
     if isinstance(e, ast.Name) and resolve:
         d = resolve(e.id)
